@@ -37,12 +37,15 @@ type FuncContract struct {
 	Scratch    map[string]bool
 	Requires   []*Clause
 	Ensures    []*Clause
+	Defines    []*Clause // definitional: assumed at call sites, not checked in the body
 	Loops      map[int]*LoopContract
 	Cuts       []string
 	Candidates []*Clause
+	PerConst   []string
 	Measure    *Clause
 	Assigns    []string
 	Lets       []*LetDef
+	Ghost      bool // the function updates the ghost handler-error state
 	Trusted    bool // contract assumed, body not verified here
 	Sim        string
 	SimOpts    map[string]string
@@ -193,6 +196,8 @@ func (cf *ContractFile) directive(cur **FuncContract, pkg, body, path string, ln
 		for _, n := range splitNames(rest) {
 			fc.Scratch[n] = true
 		}
+	case "ghost":
+		fc.Ghost = true
 	case "requires":
 		c, err := mkClause(rest)
 		if err != nil {
@@ -205,6 +210,12 @@ func (cf *ContractFile) directive(cur **FuncContract, pkg, body, path string, ln
 			return err
 		}
 		fc.Ensures = append(fc.Ensures, c)
+	case "defines":
+		c, err := mkClause(rest)
+		if err != nil {
+			return err
+		}
+		fc.Defines = append(fc.Defines, c)
 	case "loop":
 		parts := strings.SplitN(rest, " ", 3)
 		if len(parts) < 2 {
@@ -250,6 +261,13 @@ func (cf *ContractFile) directive(cur **FuncContract, pkg, body, path string, ln
 				return err
 			}
 			fc.Candidates = append(fc.Candidates, c)
+		}
+	case "perconst":
+		for _, t := range strings.Split(rest, ";") {
+			t = strings.TrimSpace(t)
+			if t != "" {
+				fc.PerConst = append(fc.PerConst, t)
+			}
 		}
 	case "measure":
 		c, err := mkClause(rest)
